@@ -54,6 +54,7 @@ fn dispatch(req: &Req) -> R<String> {
 		"system" => entropy::system(req),
 		"fp" => floats::fp(req),
 		"ufloat" => floats::ufloat(req),
+		"urange" => floats::urange(req),
 		"expd" => floats::expd(req),
 		"norm" => floats::norm(req, false),
 		"lnorm" => floats::norm(req, true),
